@@ -184,3 +184,511 @@ Proof.
     rewrite Hb. cbn [negb]. run ltac:(apply pop_ne). do 2 eexists. reflexivity.
   - run ltac:(apply try_err; apply request_fail; exact Hh). run ltac:(apply pop_ne). do 2 eexists. reflexivity.
 Qed.
+
+Definition nonsign (c : byte) : Prop := (c =? 45) || (c =? 43) = false.
+
+(* parseRange on a text that starts with a letter *)
+Lemma parse_range_fail_letter c t o e a (fr : frame) k :
+  is_digit c = false -> nonsign c -> (c =? 60) = false ->
+  exists kk e', parse_range (mkst (c :: t) o e a (fr :: k)) = (Err kk, mkst (c :: t) o e' a (fr :: k)).
+Proof.
+  intros Hd Hs H60. unfold parse_range. run ltac:(apply push_eq). run_next. rewrite H60. rewrite bind_ret.
+  run ltac:(apply try_err; apply pInt_nondigit; assumption). run ltac:(apply pop_ne). do 2 eexists. reflexivity.
+Qed.
+
+(* parseRange on a number that is not followed by ".." *)
+Lemma parse_range_fail_number n post o e a (fr : frame) k : coord n ->
+  match post with c :: _ => is_digit c = false | [] => True end ->
+  is_prefix s_dotdot post = false ->
+  exists kk e', parse_range (mkst (itoa n ++ post) o e a (fr :: k)) = (Err kk, mkst (itoa n ++ post) o e' a (fr :: k)).
+Proof.
+  intros Hc Hp Hdd. destruct (itoa_head n ltac:(unfold coord in Hc; lia)) as (c1 & t1 & E1 & D1).
+  destruct (digit_facts c1 D1) as (F60 & _).
+  unfold parse_range. run ltac:(apply push_eq).
+  assert (Hn1 : try next (mkst (itoa n ++ post) o e a ((itoa n ++ post, o, a) :: fr :: k)) =
+                (Ok (Some c1, EOther), mkst (itoa n ++ post) o (Some (o + 1)) a ((itoa n ++ post, o, a) :: fr :: k))).
+  { rewrite E1. cbn [app]. apply try_ok. apply next_cons. }
+  run ltac:(exact Hn1). rewrite F60, bind_ret.
+  run ltac:(apply try_ok; apply pInt_itoa; assumption).
+  destruct (has_n post (Z.to_nat 2)) eqn:Hh.
+  - run ltac:(apply try_ok; apply request_ok; exact Hh).
+    unfold bind at 1. unfold buffer. cbn [endr off rest].
+    replace (o + zlen (itoa n) + 2 - (o + zlen (itoa n))) with 2 by lia.
+    change (2 <? 0) with false. cbv iota. change (Z.to_nat 2) with 2%nat in *.
+    assert (Hb : bytes_eqb (firstn 2 post) s_dotdot = false).
+    { destruct post as [|x [|y u]]; try discriminate. cbn [firstn]. unfold s_dotdot in *. cbn [is_prefix] in Hdd.
+      unfold bytes_eqb. cbn [list_eqb]. rewrite (Z.eqb_sym x 46), (Z.eqb_sym y 46).
+      destruct (46 =? x); [destruct (46 =? y); [discriminate|reflexivity]|reflexivity]. }
+    rewrite Hb. cbn [negb]. run ltac:(apply pop_ne). do 2 eexists. reflexivity.
+  - run ltac:(apply try_err; apply request_fail; exact Hh). run ltac:(apply pop_ne). do 2 eexists. reflexivity.
+Qed.
+
+(* parseBetween / parseAmbiguous *)
+Lemma parse_between_fail_letter c t o e a (fr : frame) k :
+  is_digit c = false -> nonsign c ->
+  exists kk e', parse_between (mkst (c :: t) o e a (fr :: k)) = (Err kk, mkst (c :: t) o e' a (fr :: k)).
+Proof.
+  intros Hd Hs. unfold parse_between. run ltac:(apply push_eq).
+  run ltac:(apply try_err; apply pInt_nondigit; assumption). run ltac:(apply pop_ne). do 2 eexists. reflexivity.
+Qed.
+
+Lemma parse_ambiguous_fail_letter c t o e a (fr : frame) k :
+  is_digit c = false -> nonsign c ->
+  exists kk e', parse_ambiguous (mkst (c :: t) o e a (fr :: k)) = (Err kk, mkst (c :: t) o e' a (fr :: k)).
+Proof.
+  intros Hd Hs. unfold parse_ambiguous. run ltac:(apply push_eq).
+  run ltac:(apply try_err; apply pInt_nondigit; assumption). run ltac:(apply pop_ne). do 2 eexists. reflexivity.
+Qed.
+
+Lemma parse_between_fail_number n post o e a (fr : frame) k : coord n ->
+  match post with c :: _ => is_digit c = false /\ c <> 94 | [] => True end ->
+  exists kk e', parse_between (mkst (itoa n ++ post) o e a (fr :: k)) = (Err kk, mkst (itoa n ++ post) o e' a (fr :: k)).
+Proof.
+  intros Hc Hp. unfold parse_between. run ltac:(apply push_eq).
+  run ltac:(apply try_ok; apply pInt_itoa; [assumption|destruct post; [trivial|apply Hp]]).
+  destruct post as [|c t].
+  - run ltac:(apply try_err; apply next_nil). run ltac:(apply pop_ne). do 2 eexists. reflexivity.
+  - run_next. destruct Hp as [_ H94]. destruct (Z.eqb_spec c 94); [contradiction|]. cbn [negb].
+    run ltac:(apply pop_ne). do 2 eexists. reflexivity.
+Qed.
+
+Lemma parse_ambiguous_fail_number n post o e a (fr : frame) k : coord n ->
+  match post with c :: _ => is_digit c = false /\ c <> 46 | [] => True end ->
+  exists kk e', parse_ambiguous (mkst (itoa n ++ post) o e a (fr :: k)) = (Err kk, mkst (itoa n ++ post) o e' a (fr :: k)).
+Proof.
+  intros Hc Hp. unfold parse_ambiguous. run ltac:(apply push_eq).
+  run ltac:(apply try_ok; apply pInt_itoa; [assumption|destruct post; [trivial|apply Hp]]).
+  destruct post as [|c t].
+  - run ltac:(apply try_err; apply next_nil). run ltac:(apply pop_ne). do 2 eexists. reflexivity.
+  - run_next. destruct Hp as [_ H46]. destruct (Z.eqb_spec c 46); [contradiction|]. cbn [negb].
+    run ltac:(apply pop_ne). do 2 eexists. reflexivity.
+Qed.
+
+(* ---------- pars.Any *)
+Lemma any_skip {A} (p : M A) t last s kk r o e a (fr : frame) k :
+  p s = (Err kk, mkst r o e a (fr :: k)) -> any_loop (p :: t) last s = any_loop t kk (mkst r o e a (fr :: k)).
+Proof. intros H. cbn [any_loop]. run ltac:(apply try_err; exact H). run ltac:(apply pushed_ne). reflexivity. Qed.
+
+Lemma any_take {A} (p : M A) t last s v s' :
+  p s = (Ok v, s') -> any_loop (p :: t) last s = (drop ;;; ret v) s'.
+Proof. intros H. cbn [any_loop]. run ltac:(apply try_ok; exact H). reflexivity. Qed.
+
+Lemma drop_any r o e a (f0 : frame) K : exists o', drop (mkst r o e a (f0 :: K)) = (Ok tt, mkst r o' e a K).
+Proof. unfold drop. cbn [stk rest off endr apos]. destruct (autoclear_cases r o e a K) as [o' ->]. exists o'. reflexivity. Qed.
+
+(* skipping an alternative that fails cleanly *)
+Ltac skip_alt H :=
+  let kk := fresh "kk" in let e' := fresh "e'" in let E := fresh "E" in
+  destruct H as (kk & e' & E); erewrite any_skip; [|exact E]; clear E.
+
+Section Body.
+  Variable pl : M loc.
+
+  Definition alts : list (M loc) :=
+    [parse_range; parse_between; parse_ambiguous; parse_complement pl; parse_join pl; parse_order pl; parse_point].
+
+  Lemma s_complement_len : zlen s_complement = 11. Proof. reflexivity. Qed.
+
+  Lemma complement_kw_fail r o e a (fr : frame) k : is_prefix s_complement r = false ->
+    exists kk e', parse_complement pl (mkst r o e a (fr :: k)) = (Err kk, mkst r o e' a (fr :: k)).
+  Proof. intros H. unfold parse_complement. change 11 with (zlen s_complement). apply keyword_fail. exact H. Qed.
+
+  Lemma wrapped_kw_fail kw fin r o e a (fr : frame) k : is_prefix kw r = false ->
+    exists kk e', parse_wrapped pl kw fin (mkst r o e a (fr :: k)) = (Err kk, mkst r o e' a (fr :: k)).
+  Proof. intros H. unfold parse_wrapped. apply keyword_fail. exact H. Qed.
+
+  (* a printed number, followed by nothing, ')' or ',' : the point alternative *)
+  Lemma body_point n post o e a (fr : frame) k : 0 <= n -> coord (n + 1) -> follows post ->
+    exists o' e' a', any_loop alts EOther (mkst (show (Point n) ++ post) o e a (fr :: k)) =
+                     (drop ;;; ret (Point n)) (mkst post o' e' a' (fr :: k)).
+  Proof.
+    intros Hn Hc Hf. cbn [show]. unfold alts.
+    destruct (itoa_head (n + 1) ltac:(lia)) as (c1 & t1 & E1 & D1).
+    assert (Hdd : is_prefix s_dotdot post = false).
+    { destruct post as [|c t]; [reflexivity|]. destruct Hf as [-> | ->]; reflexivity. }
+    skip_alt (parse_range_fail_number (n + 1) post o e a fr k Hc (follows_nondigit _ Hf) Hdd).
+    assert (H94 : match post with c :: _ => is_digit c = false /\ c <> 94 | [] => True end).
+    { destruct post as [|c t]; [trivial|]. destruct Hf as [-> | ->]; split; (reflexivity || discriminate). }
+    skip_alt (parse_between_fail_number (n + 1) post o e' a fr k Hc H94).
+    assert (H46 : match post with c :: _ => is_digit c = false /\ c <> 46 | [] => True end).
+    { destruct post as [|c t]; [trivial|]. destruct Hf as [-> | ->]; split; (reflexivity || discriminate). }
+    skip_alt (parse_ambiguous_fail_number (n + 1) post o e'0 a fr k Hc H46).
+    assert (Hkw : forall kw, hd 0 kw <> c1 -> kw <> [] -> is_prefix kw (itoa (n + 1) ++ post) = false).
+    { intros kw H1 H2. rewrite E1. cbn [app]. apply is_prefix_false_first; [congruence|exact H2]. }
+    assert (Hc1 : c1 <> 99 /\ c1 <> 106 /\ c1 <> 111).
+    { unfold is_digit in D1. repeat split; intros ->; discriminate. }
+    skip_alt (complement_kw_fail (itoa (n + 1) ++ post) o e'1 a fr k (Hkw s_complement ltac:(cbn; intuition congruence) ltac:(discriminate))).
+    skip_alt (wrapped_kw_fail s_join join (itoa (n + 1) ++ post) o e'2 a fr k (Hkw s_join ltac:(cbn; intuition congruence) ltac:(discriminate))).
+    skip_alt (wrapped_kw_fail s_order order (itoa (n + 1) ++ post) o e'3 a fr k (Hkw s_order ltac:(cbn; intuition congruence) ltac:(discriminate))).
+    erewrite any_take; [|apply parse_point_ok; assumption]. do 3 eexists. reflexivity.
+  Qed.
+
+  Lemma body_range s0 e0 p5 p3 post o e a (fr : frame) k : 0 <= s0 -> coord (s0 + 1) -> coord e0 -> follows post ->
+    exists o' e' a', any_loop alts EOther (mkst (show (Ranged s0 e0 p5 p3) ++ post) o e a (fr :: k)) =
+                     (drop ;;; ret (Ranged s0 e0 p5 p3)) (mkst post o' e' a' (fr :: k)).
+  Proof.
+    intros Hs Hc He Hf. unfold alts.
+    destruct (parse_range_ok s0 e0 p5 p3 post o e a fr k Hs Hc He Hf) as (o' & e' & a' & E).
+    erewrite any_take; [|exact E]. do 3 eexists. reflexivity.
+  Qed.
+
+  Lemma body_between p post o e a (fr : frame) k : 0 <= p -> coord (p + 1) -> follows post ->
+    exists o' e' a', any_loop alts EOther (mkst (show (Between p) ++ post) o e a (fr :: k)) =
+                     (drop ;;; ret (Between p)) (mkst post o' e' a' (fr :: k)).
+  Proof.
+    intros Hp Hc Hf. unfold alts.
+    assert (Hc0 : coord p) by (unfold coord in *; lia).
+    assert (Hsh : show (Between p) ++ post = itoa p ++ 94 :: itoa (p + 1) ++ post) by (cbn [show]; rewrite <- !app_assoc; reflexivity).
+    pose proof (parse_range_fail_number p (94 :: itoa (p + 1) ++ post) o e a fr k Hc0 eq_refl eq_refl) as F1.
+    rewrite <- Hsh in F1. skip_alt F1.
+    destruct (parse_between_ok p post o e' a fr k Hp Hc Hf) as (o' & a' & E).
+    erewrite any_take; [|exact E]. do 3 eexists. reflexivity.
+  Qed.
+
+  Lemma body_ambiguous s0 e0 post o e a (fr : frame) k : 0 <= s0 -> coord (s0 + 1) -> coord e0 -> follows post ->
+    exists o' e' a', any_loop alts EOther (mkst (show (Ambiguous s0 e0) ++ post) o e a (fr :: k)) =
+                     (drop ;;; ret (Ambiguous s0 e0)) (mkst post o' e' a' (fr :: k)).
+  Proof.
+    intros Hs Hc He Hf. unfold alts.
+    destruct (itoa_head e0 ltac:(unfold coord in He; lia)) as (c2 & t2 & E2 & D2).
+    destruct (digit_facts c2 D2) as (_ & _ & _ & G46 & _).
+    assert (Hsh : show (Ambiguous s0 e0) ++ post = itoa (s0 + 1) ++ 46 :: itoa e0 ++ post) by (cbn [show]; rewrite <- !app_assoc; reflexivity).
+    assert (Hdd : is_prefix s_dotdot (46 :: itoa e0 ++ post) = false).
+    { rewrite E2. cbn [app is_prefix s_dotdot]. rewrite Z.eqb_refl. cbn [andb]. rewrite (Z.eqb_sym 46 c2), G46. reflexivity. }
+    pose proof (parse_range_fail_number (s0 + 1) (46 :: itoa e0 ++ post) o e a fr k Hc eq_refl Hdd) as F1.
+    rewrite <- Hsh in F1. skip_alt F1.
+    pose proof (parse_between_fail_number (s0 + 1) (46 :: itoa e0 ++ post) o e' a fr k Hc ltac:(split; [reflexivity|discriminate])) as F2.
+    rewrite <- Hsh in F2. skip_alt F2.
+    destruct (parse_ambiguous_ok s0 e0 post o e'0 a fr k Hs Hc He Hf) as (o' & a' & E).
+    erewrite any_take; [|exact E]. do 3 eexists. reflexivity.
+  Qed.
+
+  (* texts that start with a keyword letter: the three number alternatives fail cleanly *)
+  Lemma skip_numbers c t o e a (fr : frame) k last : is_digit c = false -> nonsign c -> (c =? 60) = false ->
+    exists kk e', any_loop alts last (mkst (c :: t) o e a (fr :: k)) =
+      any_loop [parse_complement pl; parse_join pl; parse_order pl; parse_point] kk (mkst (c :: t) o e' a (fr :: k)).
+  Proof.
+    intros Hd Hs H60. unfold alts.
+    skip_alt (parse_range_fail_letter c t o e a fr k Hd Hs H60).
+    skip_alt (parse_between_fail_letter c t o e' a fr k Hd Hs).
+    skip_alt (parse_ambiguous_fail_letter c t o e'0 a fr k Hd Hs).
+    do 2 eexists. reflexivity.
+  Qed.
+
+  (* complement(x), given that the recursive reference reads x *)
+  Lemma body_complement x post o e a (fr : frame) k :
+    complement x = Complemented x ->
+    (forall o1 e1 a1 (f1 : frame) k1, exists o' e' a',
+        pl (mkst (show x ++ 41 :: post) o1 e1 a1 (f1 :: k1)) = (Ok x, mkst (41 :: post) o' e' a' (f1 :: k1))) ->
+    exists o' e' a', any_loop alts EOther (mkst (show (Complemented x) ++ post) o e a (fr :: k)) =
+                     (drop ;;; ret (Complemented x)) (mkst post o' e' a' (fr :: k)).
+  Proof.
+    intros Hcx IH.
+    assert (Hsh : show (Complemented x) ++ post = s_complement ++ show x ++ 41 :: post)
+      by (cbn [show]; rewrite <- !app_assoc; reflexivity).
+    rewrite Hsh. set (T := show x ++ 41 :: post) in *.
+    change (s_complement ++ T) with (99 :: ([111; 109; 112; 108; 101; 109; 101; 110; 116; 40] ++ T)).
+    destruct (skip_numbers 99 ([111; 109; 112; 108; 101; 109; 101; 110; 116; 40] ++ T) o e a fr k EOther eq_refl eq_refl eq_refl) as (kk & e1 & E).
+    subst T.
+    assert (S : exists o' e' a', parse_complement pl (mkst (s_complement ++ show x ++ 41 :: post) o e1 a (fr :: k)) =
+                                 (Ok (Complemented x), mkst post o' e' a' (fr :: k))).
+    { unfold parse_complement. run ltac:(apply push_eq).
+      run ltac:(apply try_ok; apply request_ok; change 11 with (zlen s_complement); rewrite nat_zlen; apply has_n_app).
+      unfold bind at 1. unfold buffer. cbn [endr off rest]. replace (o + 11 - o) with 11 by lia.
+      change (11 <? 0) with false. cbv iota. change (Z.to_nat 11) with (length s_complement).
+      rewrite firstn_app, firstn_all, Nat.sub_diag. cbn [firstn]. rewrite app_nil_r.
+      change (negb (bytes_eqb s_complement s_complement)) with false. cbv iota.
+      run ltac:(apply advance_ne; [lia|change (Z.to_nat 11) with (length s_complement); apply has_n_app]).
+      change (Z.to_nat 11) with (length s_complement). rewrite skipn_app, skipn_all, Nat.sub_diag. cbn [skipn app].
+      destruct (IH (o + 11) None (a + 11) (s_complement ++ show x ++ 41 :: post, o, a) (fr :: k)) as (o2 & e2 & a2 & E2).
+      run ltac:(apply try_ok; exact E2).
+      run_next. change (negb (41 =? 41)) with false. cbv iota.
+      run ltac:(apply advance_ne; [lia|reflexivity]). cbn [skipn Z.to_nat Pos.to_nat Pos.iter_op Nat.add].
+      run ltac:(apply drop_ne). rewrite Hcx. do 3 eexists. reflexivity. }
+    destruct S as (o' & e' & a' & S).
+    exists o', e', a'. eapply eq_trans; [exact E|]. eapply eq_trans; [eapply any_take; exact S|]. reflexivity.
+  Qed.
+End Body.
+
+(* ---------- lists of members: join(...) and order(...) *)
+
+Lemma show_head l : (match l with Between p | Point p => 0 <= p | Ranged s _ _ _ | Ambiguous s _ => 0 <= s | _ => True end) ->
+  exists c t, show l = c :: t /\ is_space c = false.
+Proof.
+  destruct l as [p|p|s e p5 p3|s e|ls|ls|x]; cbn [show]; intros H.
+  - destruct (itoa_head p H) as (c & t & E & D). rewrite E. cbn [app]. exists c. eexists. split; [reflexivity|].
+    unfold is_digit, is_space in *. destruct (Z.leb_spec 48 c); destruct (Z.leb_spec c 57); try discriminate.
+    repeat (match goal with |- context [c =? ?x] => destruct (Z.eqb_spec c x); [lia|] end). reflexivity.
+  - destruct (itoa_head (p + 1) ltac:(lia)) as (c & t & E & D). rewrite E. exists c, t. split; [reflexivity|].
+    unfold is_digit, is_space in *. destruct (Z.leb_spec 48 c); destruct (Z.leb_spec c 57); try discriminate.
+    repeat (match goal with |- context [c =? ?x] => destruct (Z.eqb_spec c x); [lia|] end). reflexivity.
+  - destruct p5; cbn [app]; [exists 60; eexists; split; reflexivity|].
+    destruct (itoa_head (s + 1) ltac:(lia)) as (c & t & E & D). rewrite E. cbn [app]. exists c. eexists. split; [reflexivity|].
+    unfold is_digit, is_space in *. destruct (Z.leb_spec 48 c); destruct (Z.leb_spec c 57); try discriminate.
+    repeat (match goal with |- context [c =? ?x] => destruct (Z.eqb_spec c x); [lia|] end). reflexivity.
+  - destruct (itoa_head (s + 1) ltac:(lia)) as (c & t & E & D). rewrite E. cbn [app]. exists c. eexists. split; [reflexivity|].
+    unfold is_digit, is_space in *. destruct (Z.leb_spec 48 c); destruct (Z.leb_spec c 57); try discriminate.
+    repeat (match goal with |- context [c =? ?x] => destruct (Z.eqb_spec c x); [lia|] end). reflexivity.
+  - cbn [app]. exists 106. eexists. split; reflexivity.
+  - cbn [app]. exists 111. eexists. split; reflexivity.
+  - cbn [app]. exists 99. eexists. split; reflexivity.
+Qed.
+
+Lemma delimiter_comma c t o e a (fr : frame) k : is_space c = false ->
+  exists e', location_delimiter (mkst (44 :: c :: t) o e a (fr :: k)) = (Ok true, mkst (c :: t) (o + 1) e' (a + 1) (fr :: k)).
+Proof.
+  intros Hc. unfold location_delimiter. run ltac:(apply push_eq). run_next. change (negb (44 =? 44)) with false. cbv iota.
+  run ltac:(apply advance_ne; [lia|reflexivity]). cbn [skipn Z.to_nat Pos.to_nat Pos.iter_op Nat.add].
+  run_next. unfold bind at 1. unfold advance_while. cbn [rest stk off apos endr span_n]. rewrite Hc.
+  run ltac:(apply drop_ne). eexists. reflexivity.
+Qed.
+
+Lemma delimiter_stop r o e a (fr : frame) k : match r with c :: _ => c <> 44 | [] => True end ->
+  exists e', location_delimiter (mkst r o e a (fr :: k)) = (Ok false, mkst r o e' a (fr :: k)).
+Proof.
+  intros H. unfold location_delimiter. run ltac:(apply push_eq). destruct r as [|c t].
+  - run ltac:(apply try_err; apply next_nil). run ltac:(apply pop_ne). eexists. reflexivity.
+  - run_next. destruct (Z.eqb_spec c 44); [contradiction|]. cbn [negb]. run ltac:(apply pop_ne). eexists. reflexivity.
+Qed.
+
+Definition reads (pl : M loc) (x : loc) : Prop :=
+  forall post o e a (f1 : frame) k1, follows post ->
+    exists o' e' a', pl (mkst (show x ++ post) o e a (f1 :: k1)) = (Ok x, mkst post o' e' a' (f1 :: k1)).
+Definition head_ok (x : loc) : Prop := exists c t, show x = c :: t /\ is_space c = false.
+Definition tailtext (ls : list loc) : list byte := flat_map (fun y => 44 :: show y) ls.
+
+Lemma follows_tail t post : follows (tailtext t ++ 41 :: post).
+Proof. destruct t; cbn; auto. Qed.
+
+Section Lists.
+  Variable pl : M loc.
+
+  Lemma multi_ok ls : forall acc fuel post o e a (F0 fr : frame) k,
+    Forall (reads pl) ls -> Forall head_ok ls -> (length ls < fuel)%nat ->
+    exists o' e' a', multi_loop pl fuel acc (mkst (tailtext ls ++ 41 :: post) o e a (F0 :: fr :: k)) =
+                     (Ok (rev acc ++ ls), mkst (41 :: post) o' e' a' (fr :: k)).
+  Proof.
+    induction ls as [|y t IH]; intros acc fuel post o e a F0 fr k Hr Hh Hf;
+      (destruct fuel as [|f]; [cbn [length] in Hf; lia|]); cbn [multi_loop].
+    - cbn [tailtext flat_map app]. destruct (delimiter_stop (41 :: post) o e a F0 (fr :: k) ltac:(discriminate)) as (e1 & E).
+      run ltac:(exact E). run ltac:(apply drop_ne). rewrite app_nil_r. do 3 eexists. reflexivity.
+    - inversion Hr as [|? ? Hy Ht]; subst. inversion Hh as [|? ? Hhy Hht]; subst.
+      destruct Hhy as (c & t' & Ey & Hc).
+      assert (Hrest : tailtext (y :: t) ++ 41 :: post = 44 :: c :: (t' ++ tailtext t ++ 41 :: post)).
+      { unfold tailtext. cbn [flat_map]. fold (tailtext t). rewrite Ey. rewrite <- !app_assoc. cbn [app]. reflexivity. }
+      rewrite Hrest.
+      destruct (delimiter_comma c (t' ++ tailtext t ++ 41 :: post) o e a F0 (fr :: k) Hc) as (e1 & E).
+      run ltac:(exact E).
+      assert (Hsh : c :: t' ++ tailtext t ++ 41 :: post = show y ++ (tailtext t ++ 41 :: post)) by (rewrite Ey; reflexivity).
+      rewrite Hsh.
+      destruct (Hy (tailtext t ++ 41 :: post) (o + 1) e1 (a + 1) F0 (fr :: k) (follows_tail t post)) as (o2 & e2 & a2 & E2).
+      run ltac:(apply try_ok; exact E2).
+      destruct (IH (y :: acc) f post o2 e2 a2 F0 fr k Ht Hht ltac:(cbn [length] in Hf; lia)) as (o3 & e3 & a3 & E3).
+      rewrite E3. cbn [rev]. rewrite <- app_assoc. do 3 eexists. reflexivity.
+  Qed.
+
+  Lemma multiple_ok x ls post o e a (fr : frame) k :
+    reads pl x -> Forall (reads pl) ls -> Forall head_ok ls ->
+    exists o' e' a', multiple_location_parser pl (mkst (show x ++ tailtext ls ++ 41 :: post) o e a (fr :: k)) =
+                     (Ok (x :: ls), mkst (41 :: post) o' e' a' (fr :: k)).
+  Proof.
+    intros Hx Hr Hh. unfold multiple_location_parser. run ltac:(apply push_eq).
+    destruct (Hx (tailtext ls ++ 41 :: post) o e a (show x ++ tailtext ls ++ 41 :: post, o, a) (fr :: k) (follows_tail ls post)) as (o1 & e1 & a1 & E1).
+    run ltac:(apply try_ok; exact E1). unfold bind at 1. unfold get. cbn [rest].
+    destruct (multi_ok ls [x] (S (length (tailtext ls ++ 41 :: post))) post o1 e1 a1 (show x ++ tailtext ls ++ 41 :: post, o, a) fr k Hr Hh) as (o2 & e2 & a2 & E2).
+    - rewrite app_length. assert (length ls <= length (tailtext ls))%nat; [|unfold byte in *; lia].
+      clear. induction ls as [|y t IH]; [cbn; lia|]. unfold tailtext in *. cbn [flat_map length]. rewrite app_length. cbn [length]. unfold byte in *. lia.
+    - rewrite E2. do 3 eexists. reflexivity.
+  Qed.
+End Lists.
+
+Lemma sep_by_tail x ls : sep_by [44] (map show (x :: ls)) = show x ++ tailtext ls.
+Proof.
+  unfold sep_by, tailtext. cbn [map]. f_equal. induction ls as [|y t IH]; [reflexivity|].
+  cbn [map flat_map app]. f_equal. f_equal. exact IH.
+Qed.
+
+Lemma bytes_eqb_refl' q : bytes_eqb q q = true.
+Proof. unfold bytes_eqb. induction q as [|c t IH]; [reflexivity|]. cbn [list_eqb]. now rewrite Z.eqb_refl, IH. Qed.
+
+Section Wrapped.
+  Variable pl : M loc.
+
+  Lemma wrapped_ok kw fin x ls l post o e a (fr : frame) k :
+    reads pl x -> Forall (reads pl) ls -> Forall head_ok ls -> fin (x :: ls) = Ok l ->
+    exists o' e' a', parse_wrapped pl kw fin (mkst (kw ++ show x ++ tailtext ls ++ 41 :: post) o e a (fr :: k)) =
+                     (Ok l, mkst post o' e' a' (fr :: k)).
+  Proof.
+    intros Hx Hr Hh Hfin. unfold parse_wrapped. run ltac:(apply push_eq).
+    run ltac:(apply try_ok; apply request_ok; rewrite nat_zlen; apply has_n_app).
+    unfold bind at 1. unfold buffer. cbn [endr off rest]. replace (o + zlen kw - o) with (zlen kw) by lia.
+    destruct (Z.ltb_spec (zlen kw) 0); [pose proof (zlen_nonneg kw); lia|].
+    rewrite nat_zlen, firstn_app, firstn_all, Nat.sub_diag. cbn [firstn]. rewrite app_nil_r.
+    rewrite bytes_eqb_refl'. cbn [negb].
+    run ltac:(apply advance_ne; [apply zlen_nonneg|rewrite nat_zlen; apply has_n_app]).
+    rewrite nat_zlen, skipn_app, skipn_all, Nat.sub_diag. cbn [skipn app].
+    destruct (multiple_ok pl x ls post (o + zlen kw) None (a + zlen kw) (kw ++ show x ++ tailtext ls ++ 41 :: post, o, a) (fr :: k) Hx Hr Hh) as (o1 & e1 & a1 & E1).
+    run ltac:(apply try_ok; exact E1).
+    run_next. change (negb (41 =? 41)) with false. cbv iota.
+    run ltac:(apply advance_ne; [lia|reflexivity]). cbn [skipn Z.to_nat Pos.to_nat Pos.iter_op Nat.add].
+    rewrite Hfin. unfold lift at 1. unfold bind at 1.
+    run ltac:(apply drop_ne). do 3 eexists. reflexivity.
+  Qed.
+
+  Lemma body_join x ls post o e a (fr : frame) k :
+    reads pl x -> Forall (reads pl) ls -> Forall head_ok ls -> join (x :: ls) = Ok (Joined (x :: ls)) ->
+    exists o' e' a', any_loop (alts pl) EOther (mkst (show (Joined (x :: ls)) ++ post) o e a (fr :: k)) =
+                     (drop ;;; ret (Joined (x :: ls))) (mkst post o' e' a' (fr :: k)).
+  Proof.
+    intros Hx Hr Hh Hj.
+    assert (Hsh : show (Joined (x :: ls)) ++ post = s_join ++ show x ++ tailtext ls ++ 41 :: post).
+    { cbn [show]. rewrite sep_by_tail. rewrite <- !app_assoc. reflexivity. }
+    rewrite Hsh. set (T := show x ++ tailtext ls ++ 41 :: post) in *.
+    destruct (skip_numbers pl 106 ([111; 105; 110; 40] ++ T) o e a fr k EOther eq_refl eq_refl eq_refl) as (kk & e1 & E).
+    destruct (complement_kw_fail pl (106 :: [111; 105; 110; 40] ++ T) o e1 a fr k eq_refl) as (kk2 & e2 & E2).
+    destruct (wrapped_ok s_join join x ls (Joined (x :: ls)) post o e2 a fr k Hx Hr Hh Hj) as (o' & e' & a' & S).
+    exists o', e', a'. eapply eq_trans; [exact E|]. eapply eq_trans; [eapply any_skip; exact E2|].
+    eapply eq_trans; [eapply any_take; exact S|]. reflexivity.
+  Qed.
+
+  Lemma body_order x ls post o e a (fr : frame) k :
+    reads pl x -> Forall (reads pl) ls -> Forall head_ok ls -> order (x :: ls) = Ok (Ordered (x :: ls)) ->
+    exists o' e' a', any_loop (alts pl) EOther (mkst (show (Ordered (x :: ls)) ++ post) o e a (fr :: k)) =
+                     (drop ;;; ret (Ordered (x :: ls))) (mkst post o' e' a' (fr :: k)).
+  Proof.
+    intros Hx Hr Hh Hj.
+    assert (Hsh : show (Ordered (x :: ls)) ++ post = s_order ++ show x ++ tailtext ls ++ 41 :: post).
+    { cbn [show]. rewrite sep_by_tail. rewrite <- !app_assoc. reflexivity. }
+    rewrite Hsh. set (T := show x ++ tailtext ls ++ 41 :: post) in *.
+    destruct (skip_numbers pl 111 ([114; 100; 101; 114; 40] ++ T) o e a fr k EOther eq_refl eq_refl eq_refl) as (kk & e1 & E).
+    destruct (complement_kw_fail pl (111 :: [114; 100; 101; 114; 40] ++ T) o e1 a fr k eq_refl) as (kk2 & e2 & E2).
+    destruct (wrapped_kw_fail pl s_join join (111 :: [114; 100; 101; 114; 40] ++ T) o e2 a fr k eq_refl) as (kk3 & e3 & E3).
+    destruct (wrapped_ok s_order order x ls (Ordered (x :: ls)) post o e3 a fr k Hx Hr Hh Hj) as (o' & e' & a' & S).
+    exists o', e', a'. eapply eq_trans; [exact E|]. eapply eq_trans; [eapply any_skip; exact E2|].
+    eapply eq_trans; [eapply any_skip; exact E3|]. eapply eq_trans; [eapply any_take; exact S|]. reflexivity.
+  Qed.
+End Wrapped.
+
+(* ---------- the theorem *)
+
+Fixpoint printable (l : loc) : Prop :=
+  match l with
+  | Between p | Point p => 0 <= p /\ coord (p + 1)
+  | Ranged s e _ _ | Ambiguous s e => 0 <= s /\ coord (s + 1) /\ coord e
+  | Joined ls => join ls = Ok (Joined ls) /\
+                 (fix all (xs : list loc) : Prop := match xs with [] => True | x :: t => printable x /\ all t end) ls
+  | Ordered ls => order ls = Ok (Ordered ls) /\
+                  (fix all (xs : list loc) : Prop := match xs with [] => True | x :: t => printable x /\ all t end) ls
+  | Complemented x => complement x = Complemented x /\ printable x
+  end.
+
+Lemma all_printable ls :
+  (fix all (xs : list loc) : Prop := match xs with [] => True | x :: t => printable x /\ all t end) ls -> Forall printable ls.
+Proof. induction ls as [|x t IH]; intros H; [constructor|]. destruct H as [H1 H2]. constructor; [exact H1|apply IH, H2]. Qed.
+
+Lemma printable_head l : printable l -> head_ok l.
+Proof. intros H. apply show_head. destruct l; cbn [printable] in H; tauto. Qed.
+
+Lemma loc_size_pos l : (1 <= loc_size l)%nat.
+Proof. destruct l; cbn [loc_size]; lia. Qed.
+
+Lemma loc_size_member x ls : In x ls -> (loc_size x <= fold_right (fun y acc => loc_size y + acc)%nat O ls)%nat.
+Proof. induction ls as [|y t IH]; intros H; [contradiction|]. cbn [fold_right]. destruct H as [->|H]; [lia|]. specialize (IH H). lia. Qed.
+
+Definition body_reads (f : nat) (l : loc) : Prop :=
+  forall post o e a (fr : frame) k, follows post ->
+    exists o' e' a', any_loop (alts (parse_location f)) EOther (mkst (show l ++ post) o e a (fr :: k)) =
+                     (drop ;;; ret l) (mkst post o' e' a' (fr :: k)).
+
+Lemma reads_of_body f l : body_reads f l -> reads (parse_location (S f)) l.
+Proof.
+  intros H post o e a f1 k1 Hf. cbn [parse_location]. unfold parse_location_body, pAny.
+  run ltac:(apply push_eq). fold (alts (parse_location f)).
+  destruct (H post o e a (show l ++ post, o, a) (f1 :: k1) Hf) as (o' & e' & a' & E).
+  eapply ex_intro. eapply ex_intro. eapply ex_intro. eapply eq_trans; [exact E|].
+  run ltac:(apply drop_ne). reflexivity.
+Qed.
+
+Theorem body_all f : forall l, printable l -> (loc_size l <= S f)%nat -> body_reads f l.
+Proof.
+  induction f as [|f IH]; intros l Hp Hs post o e a fr k Hf.
+  - (* only contiguous locations have size 1 *)
+    destruct l as [p|p|s e0 p5 p3|s e0|ls|ls|x]; cbn [printable] in Hp.
+    + apply body_between; tauto.
+    + apply body_point; tauto.
+    + apply body_range; tauto.
+    + apply body_ambiguous; tauto.
+    + exfalso. destruct ls as [|x t]; [destruct Hp as [Hj _]; discriminate|].
+      cbn [loc_size fold_right] in Hs. pose proof (loc_size_pos x). lia.
+    + exfalso. destruct ls as [|x t]; [destruct Hp as [Hj _]; discriminate|].
+      cbn [loc_size fold_right] in Hs. pose proof (loc_size_pos x). lia.
+    + exfalso. cbn [loc_size] in Hs. pose proof (loc_size_pos x). lia.
+  - destruct l as [p|p|s e0 p5 p3|s e0|ls|ls|x]; cbn [printable] in Hp.
+    + apply body_between; tauto.
+    + apply body_point; tauto.
+    + apply body_range; tauto.
+    + apply body_ambiguous; tauto.
+    + destruct Hp as [Hj Hall]. apply all_printable in Hall.
+      destruct ls as [|x t]; [discriminate|]. inversion Hall as [|? ? Hx Ht]; subst.
+      assert (Hmem : forall y, In y (x :: t) -> printable y -> reads (parse_location (S f)) y).
+      { intros y Hin Hy. apply reads_of_body. apply IH; [exact Hy|].
+        pose proof (loc_size_member y (x :: t) Hin). cbn [loc_size] in Hs. lia. }
+      apply body_join; [apply Hmem; [left; reflexivity|exact Hx]| | |exact Hj].
+      * apply Forall_forall. intros y Hin. apply Hmem; [right; exact Hin|]. rewrite Forall_forall in Ht. apply Ht, Hin.
+      * apply Forall_forall. intros y Hin. apply printable_head. rewrite Forall_forall in Ht. apply Ht, Hin.
+    + destruct Hp as [Hj Hall]. apply all_printable in Hall.
+      destruct ls as [|x t]; [discriminate|]. inversion Hall as [|? ? Hx Ht]; subst.
+      assert (Hmem : forall y, In y (x :: t) -> printable y -> reads (parse_location (S f)) y).
+      { intros y Hin Hy. apply reads_of_body. apply IH; [exact Hy|].
+        pose proof (loc_size_member y (x :: t) Hin). cbn [loc_size] in Hs. lia. }
+      apply body_order; [apply Hmem; [left; reflexivity|exact Hx]| | |exact Hj].
+      * apply Forall_forall. intros y Hin. apply Hmem; [right; exact Hin|]. rewrite Forall_forall in Ht. apply Ht, Hin.
+      * apply Forall_forall. intros y Hin. apply printable_head. rewrite Forall_forall in Ht. apply Ht, Hin.
+    + destruct Hp as [Hc Hx]. apply body_complement; [exact Hc|].
+      intros o1 e1 a1 f1 k1. apply (reads_of_body f x); [|left; reflexivity].
+      apply IH; [exact Hx|]. cbn [loc_size] in Hs. lia.
+Qed.
+
+Lemma itoa_nonempty n : 0 <= n -> (1 <= length (itoa n))%nat.
+Proof. intros H. destruct (itoa_head n H) as (c & t & E & _). rewrite E. cbn [length]. lia. Qed.
+
+Lemma tailtext_size ls : Forall (fun x => (loc_size x <= length (show x))%nat) ls ->
+  (fold_right (fun y acc => loc_size y + acc)%nat O ls <= length (tailtext ls))%nat.
+Proof.
+  intros H. induction H as [|x t Hx _ IH]; [cbn; lia|]. unfold tailtext in *. cbn [fold_right flat_map length].
+  rewrite app_length. cbn [length]. unfold byte in *. lia.
+Qed.
+
+Lemma size_le_show l : printable l -> (loc_size l <= length (show l))%nat.
+Proof.
+  induction l as [p|p|s e0 p5 p3|s e0|ls IH|ls IH|x IH] using loc_ind'; cbn [printable]; intros Hp.
+  - cbn [show loc_size]. rewrite !app_length. pose proof (itoa_nonempty p ltac:(tauto)). unfold byte in *. lia.
+  - cbn [show loc_size]. apply itoa_nonempty. lia.
+  - cbn [show loc_size]. rewrite !app_length. pose proof (itoa_nonempty (s + 1) ltac:(lia)). unfold byte in *. lia.
+  - cbn [show loc_size]. rewrite !app_length. pose proof (itoa_nonempty (s + 1) ltac:(lia)). unfold byte in *. lia.
+  - destruct Hp as [Hj Hall]. apply all_printable in Hall. destruct ls as [|x t]; [discriminate|].
+    cbn [show loc_size]. rewrite sep_by_tail. rewrite !app_length. cbn [length fold_right].
+    inversion IH as [|? ? IHx IHt]; subst. inversion Hall as [|? ? Hx Ht]; subst.
+    pose proof (IHx Hx). assert (Forall (fun y => (loc_size y <= length (show y))%nat) t).
+    { apply Forall_forall. intros y Hin. rewrite Forall_forall in IHt, Ht. apply IHt; [exact Hin|apply Ht, Hin]. }
+    pose proof (tailtext_size t H0). unfold byte in *. lia.
+  - destruct Hp as [Hj Hall]. apply all_printable in Hall. destruct ls as [|x t]; [discriminate|].
+    cbn [show loc_size]. rewrite sep_by_tail. rewrite !app_length. cbn [length fold_right].
+    inversion IH as [|? ? IHx IHt]; subst. inversion Hall as [|? ? Hx Ht]; subst.
+    pose proof (IHx Hx). assert (Forall (fun y => (loc_size y <= length (show y))%nat) t).
+    { apply Forall_forall. intros y Hin. rewrite Forall_forall in IHt, Ht. apply IHt; [exact Hin|apply Ht, Hin]. }
+    pose proof (tailtext_size t H0). unfold byte in *. lia.
+  - destruct Hp as [_ Hx]. cbn [show loc_size]. rewrite !app_length. cbn [length]. specialize (IH Hx). unfold byte in *. lia.
+Qed.
+
+(* gts.AsLocation(l.String()) = l *)
+Theorem as_location_show l : printable l -> as_location (show l) = Ok l.
+Proof.
+  intros Hp. unfold as_location, run, st_of. cbn [parse_location]. unfold parse_location_body, pAny.
+  erewrite bind_ok; [|apply push_eq]. fold (alts (parse_location (length (show l)))).
+  pose proof (size_le_show l Hp) as Hs.
+  destruct (body_all (length (show l)) l Hp ltac:(lia) [] 0 None 0 (show l, 0, 0) [] I) as (o' & e' & a' & E).
+  rewrite app_nil_r in E.
+  match goal with |- fst ?t = _ => replace t with ((drop ;;; ret l) (mkst [] o' e' a' [(show l, 0, 0)])) by (symmetry; exact E) end.
+  reflexivity.
+Qed.
